@@ -17,11 +17,12 @@ HyphenPts(s, wd) == {q + 1 : q \in {x \in (wd.a + 1)..(wd.e - 2) : s[x] = HY /\ 
 \*  every<k>: a split point after every `k`-th character of the word, but never directly after a space (Unicode-separator
 \*            words may contain spaces) and never *inside* an escape sequence (directly before its ESC is allowed);
 \*  half:     the documentation's example `|w| vec![w.len() / 2]`, in characters: for a one-character word this is
-\*            the split point 0 (an empty first piece), which the documented range 0..word.len() allows
+\*            the split point 0 (an empty first piece), which the documented range 0..word.len() allows; the documented
+\*            closure also returns 0 for the *empty* word (the leading spaces of a paragraph), and so does the harness
 OutsideSeq(s, wd, q) == Pre(SubSeq(s, wd.a, wd.e - 1))[q - wd.a + 1] = "T"
 EveryPts(s, wd, k) == {q \in (wd.a + 1)..(wd.e - 1) : (q - wd.a) % k = 0 /\ s[q - 1] # SP /\ OutsideSeq(s, wd, q)}
 HalfPts(s, wd) == LET n == wd.e - wd.a q == wd.a + (n \div 2)
-                  IN IF n >= 1 /\ OutsideSeq(s, wd, q) /\ (q = wd.a \/ s[q - 1] # SP) THEN {q} ELSE {}
+                  IN IF OutsideSeq(s, wd, q) /\ (q = wd.a \/ s[q - 1] # SP) THEN {q} ELSE {}    \* also for the empty word: {wd.a}
 
 \* splitter: "none" | "hyphen" | "every2" | "every3" | "half"
 SplitPts(s, wd, splitter) ==
